@@ -1131,6 +1131,15 @@ pub(crate) fn get_merged_string_output_address<'data, P: Platform>(
         input_offset = input_offset.wrapping_add(addend as u64);
     }
 
+    // Make sure that the offset is within the input section. `find_string` searches backwards from
+    // the offset, so an absurdly large offset would otherwise take effectively forever.
+    let section_size = object.section_size(object.section(section_index)?)?;
+    if input_offset > section_size {
+        bail!(
+            "Reference to offset {input_offset} in merge-string section of size {section_size}"
+        );
+    }
+
     let part_id = section_part_ids[input_section_id.as_usize()];
     let section_id = part_id.output_section_id();
     let strings_section = merged_strings.get(section_id);
